@@ -99,7 +99,76 @@ var (
 	kindsStrLf = []string{"str", "str", "str", "str", "str", "str", "str", "int"}
 )
 
+// deepCorners are nesting depths around powers of two (recursion guards,
+// fixed-size stacks and depth budgets live there).
+var deepCorners = []int{4, 7, 8, 9, 15, 16, 17, 31, 32, 33, 34, 48, 63, 64, 65, 100}
+
+// genDeep draws a value whose nesting DEPTH is the dimension ("every string
+// value it holds, whether top-level or nested in slices and maps"): a chain of
+// 1..127 enclosing slices and maps (corners around 8/16/32/64 or log-uniform),
+// every level a slice or a map by choice, with a few short siblings, the
+// bottom a string that is usually longer than the length limit. In the
+// duplicate-nested-keys class a map level may carry an earlier entry with the
+// same key (shadowed by the chain, itself an over-long string).
+func (g genCtx) genDeep(t *rapid.T) VD {
+	var d int
+	if rapid.Bool().Draw(t, "deep_corner") {
+		d = rapid.SampledFrom(deepCorners).Draw(t, "deep_depth")
+	} else {
+		d = genLogInt(t, 6, "deep_depth_log")
+	}
+	long := func(label string) VD {
+		if rapid.IntRange(0, 5).Draw(t, label+"_any") == 0 {
+			return VD{T: "str", S: g.genText(t)}
+		}
+		lim := g.lenLimit
+		if lim < 0 {
+			lim = 3
+		}
+		n := lim + rapid.IntRange(1, 3).Draw(t, label+"_over")
+		pat := rapid.SliceOfN(rapid.SampledFrom(repeatRunes), 1, 3).Draw(t, label+"_pattern")
+		var sb strings.Builder
+		for i := 0; i < n; i++ {
+			sb.WriteRune(pat[i%len(pat)])
+		}
+		return VD{T: "str", S: vk.Str(sb.String())}
+	}
+	v := long("bottom")
+	for i := 0; i < d; i++ {
+		sib := rapid.IntRange(0, 7).Draw(t, "deep_sibling")
+		if rapid.Bool().Draw(t, "deep_map") {
+			k := rapid.SampledFrom(nestedKeys).Draw(t, "deep_key")
+			m := VD{T: "map"}
+			switch {
+			case sib == 0 && g.nestedDup:
+				m.M = append(m.M, KVD{K: vk.Str(k), V: long("shadowed")})
+			case sib == 1:
+				m.M = append(m.M, KVD{K: vk.Str(k + "'"), V: long("sibling")})
+			}
+			m.M = append(m.M, KVD{K: vk.Str(k), V: v})
+			if sib == 2 {
+				m.M = append(m.M, KVD{K: vk.Str(k + "\""), V: g.genValue(t, 3)})
+			}
+			v = m
+			continue
+		}
+		l := VD{T: "slice"}
+		if sib == 0 {
+			l.L = append(l.L, long("sibling"))
+		}
+		l.L = append(l.L, v)
+		if sib == 1 {
+			l.L = append(l.L, g.genValue(t, 3))
+		}
+		v = l
+	}
+	return v
+}
+
 func (g genCtx) genValue(t *rapid.T, depth int) VD {
+	if depth == 0 && rapid.IntRange(0, 79).Draw(t, "deep") == 0 {
+		return g.genDeep(t)
+	}
 	ks := kindsAll
 	switch {
 	case g.strHeavy && depth >= 2:
